@@ -81,7 +81,147 @@ Section DirFacts.
     intros H. unfold Directory.key_history. rewrite H. destruct params; [reflexivity|]. rewrite firstn_nil. reflexivity.
   Qed.
 
+
+  (* ---------------------------------------------------------------- C20: tombstoning *)
+
+  Lemma tomb_user l c s : vr_user (tomb_state l c s) = vr_user s.
+  Proof. unfold tomb_state. destruct (_ && _); reflexivity. Qed.
+  Lemma tomb_epoch l c s : vr_epoch (tomb_state l c s) = vr_epoch s.
+  Proof. unfold tomb_state. destruct (_ && _); reflexivity. Qed.
+  Lemma tomb_version l c s : vr_version (tomb_state l c s) = vr_version s.
+  Proof. unfold tomb_state. destruct (_ && _); reflexivity. Qed.
+  Lemma tomb_label l c s : vr_label (tomb_state l c s) = vr_label s.
+  Proof. unfold tomb_state. destruct (_ && _); reflexivity. Qed.
+
+  Definition latest_step (u : bytes) (e : N) (acc : option vrec) (s : vrec) : option vrec :=
+    if bytes_eqb (vr_user s) u && (vr_epoch s <=? e) then
+      match acc with Some a => if vr_epoch a <=? vr_epoch s then Some s else acc | None => Some s end
+    else acc.
+
+  Lemma latest_fold_tomb l c u e sts : forall acc,
+    fold_left (latest_step u e) (map (tomb_state l c) sts) (option_map (tomb_state l c) acc) =
+    option_map (tomb_state l c) (fold_left (latest_step u e) sts acc).
+  Proof.
+    induction sts as [|s sts IH]; intros acc; simpl; [reflexivity|]. rewrite <- IH. f_equal.
+    unfold latest_step. rewrite tomb_user, tomb_epoch. destruct (bytes_eqb (vr_user s) u && (vr_epoch s <=? e)); [|reflexivity].
+    destruct acc as [a|]; simpl; [|reflexivity]. rewrite tomb_epoch. destruct (vr_epoch a <=? vr_epoch s); reflexivity.
+  Qed.
+
+  Lemma latest_state_tomb l c sts u e :
+    latest_state (map (tomb_state l c) sts) u e = option_map (tomb_state l c) (latest_state sts u e).
+  Proof. exact (latest_fold_tomb l c u e sts None). Qed.
+
+  Lemma latest_state_user sts u e s : latest_state sts u e = Some s -> bytes_eqb (vr_user s) u = true /\ vr_epoch s <= e.
+  Proof.
+    unfold latest_state. change (fold_left _ sts None) with (fold_left (latest_step u e) sts None).
+    assert (G : forall acc, (forall a, acc = Some a -> bytes_eqb (vr_user a) u = true /\ vr_epoch a <= e) ->
+               forall s, fold_left (latest_step u e) sts acc = Some s -> bytes_eqb (vr_user s) u = true /\ vr_epoch s <= e).
+    { induction sts as [|x sts IH]; intros acc Hacc s0 H; simpl in H; [now apply Hacc|].
+      apply (IH (latest_step u e acc x)); [|exact H]. intros a Ha. unfold latest_step in Ha.
+      destruct (bytes_eqb (vr_user x) u && (vr_epoch x <=? e)) eqn:C; [|now apply Hacc].
+      apply andb_true_iff in C. destruct C as [C1 C2]. apply N.leb_le in C2.
+      destruct acc as [a0|].
+      - destruct (vr_epoch a0 <=? vr_epoch x); [injection Ha as <-; auto|now apply Hacc].
+      - injection Ha as <-. auto. }
+    apply G. intros a Ha. discriminate.
+  Qed.
+
+  (* the epoch hash and every audit proof are untouched *)
+  Theorem tombstone_epoch_hash st l c : epoch_hash cfg (d_tombstone st l c) = epoch_hash cfg st.
+  Proof. reflexivity. Qed.
+
+  (* lookups of other labels, and the label's own lookup when the cut-off is before its latest
+     update, return the very same proof *)
+  Theorem tombstone_lookup st l c l' :
+    (bytes_eqb l' l = false \/
+     exists s, latest_state (d_states st) l' (d_epoch st) = Some s /\ c < vr_epoch s) ->
+    lookup (d_tombstone st l c) l' = lookup st l'.
+  Proof.
+    intros H. unfold Directory.lookup. cbn [d_tombstone d_states d_epoch d_tree]. rewrite latest_state_tomb.
+    destruct (latest_state (d_states st) l' (d_epoch st)) as [s|] eqn:E; [|reflexivity]. cbn [option_map].
+    assert (Hs : tomb_state l c s = s).
+    { unfold tomb_state. destruct (latest_state_user _ _ _ _ E) as [Hu _].
+      destruct H as [Hne|(s' & Es & Hc)].
+      - destruct (bytes_eqb (vr_user s) l) eqn:B; [|reflexivity]. exfalso.
+        apply bytes_eqb_eq in Hu, B. assert (E' : l' = l) by congruence. apply bytes_eqb_eq in E'. congruence.
+      - injection Es as <-. destruct (N.leb_spec (vr_epoch s) c); [lia|]. now rewrite andb_false_r. }
+    rewrite Hs. reflexivity.
+  Qed.
+
+  Lemma derive_update_tomb st l c upd :
+    latest_state (map (tomb_state l c) (d_states st)) (fst upd) (d_epoch st) = latest_state (d_states st) (fst upd) (d_epoch st) ->
+    derive_update cfg ck vrf_label (d_tombstone st l c) upd = derive_update cfg ck vrf_label st upd.
+  Proof using cfg ck vrf_label.
+    intros H. unfold derive_update. destruct upd as [l' v]. cbn [d_tombstone d_states d_epoch fst] in *. rewrite H. reflexivity.
+  Qed.
+
+  Lemma derive_all_tomb st l c upds :
+    (forall u, In u (map fst upds) ->
+       latest_state (map (tomb_state l c) (d_states st)) u (d_epoch st) = latest_state (d_states st) u (d_epoch st)) ->
+    derive_all cfg ck vrf_label (d_tombstone st l c) upds = derive_all cfg ck vrf_label st upds.
+  Proof using cfg ck vrf_label.
+    induction upds as [|u upds IH]; intros H; [reflexivity|]. cbn [derive_all].
+    rewrite derive_update_tomb by (apply H; now left). rewrite IH by (intros u' Hu'; apply H; now right). reflexivity.
+  Qed.
+
+  Lemma derive_update_news_epoch st upd elems news : derive_update cfg ck vrf_label st upd = Some (elems, news) ->
+    forall s, In s news -> vr_epoch s = d_epoch st + 1.
+  Proof using cfg ck vrf_label.
+    unfold derive_update. destruct upd as [l v]. destruct (latest_state _ _ _) as [s0|].
+    - destruct (bytes_eqb (vr_value s0) v); [intros [= <- <-] s []|].
+      destruct (vrf_label l false (vr_version s0)); [|discriminate]. destruct (vrf_label l true (vr_version s0 + 1)); [|discriminate].
+      intros [= <- <-] s [<-|[]]. reflexivity.
+    - destruct (vrf_label l true 1); [|discriminate]. intros [= <- <-] s [<-|[]]. reflexivity.
+  Qed.
+
+  Lemma derive_all_news_epoch st upds : forall elems news, derive_all cfg ck vrf_label st upds = Some (elems, news) ->
+    forall s, In s news -> vr_epoch s = d_epoch st + 1.
+  Proof using cfg ck vrf_label.
+    induction upds as [|u upds IH]; intros elems news H s Hs; cbn [derive_all] in H.
+    - injection H as <- <-. destruct Hs.
+    - destruct (derive_update cfg ck vrf_label st u) as [[e1 s1]|] eqn:E1; [|discriminate].
+      destruct (derive_all cfg ck vrf_label st upds) as [[e2 s2]|] eqn:E2; [|discriminate].
+      injection H as <- <-. apply in_app_or in Hs. destruct Hs as [Hs|Hs].
+      + eapply derive_update_news_epoch; eauto.
+      + eapply IH; eauto.
+  Qed.
+
+  (* C20: further publishes commute with tombstoning (cut-off not beyond the current epoch; the
+     latest state of every published label is not among the tombstoned ones) *)
+  Theorem tombstone_publish_commute st l c upds st' r :
+    c <= d_epoch st ->
+    (forall u, In u (map fst upds) ->
+       latest_state (map (tomb_state l c) (d_states st)) u (d_epoch st) = latest_state (d_states st) u (d_epoch st)) ->
+    publish st upds = (st', r) ->
+    publish (d_tombstone st l c) upds = (d_tombstone st' l c, r).
+  Proof using cfg ck vrf_label.
+    intros Hc Hst. unfold Directory.publish. destruct (has_dup (map fst upds)); [intros [= <- <-]; reflexivity|].
+    rewrite derive_all_tomb by exact Hst.
+    destruct (derive_all cfg ck vrf_label st upds) as [[elems news]|] eqn:E; [|intros [= <- <-]; reflexivity].
+    destruct elems as [|x xs]; [intros [= <- <-]; reflexivity|].
+    cbn [d_tombstone d_tree d_epoch d_num d_states].
+    destruct (batch_insert (c_empty_label cfg) (d_tree st, d_epoch st, d_num st) (x :: xs)) as [[[t' e'] n']|]; [|intros [= <- <-]; reflexivity].
+    intros [= <- <-]. unfold d_tombstone. cbn [d_tree d_epoch d_num d_states]. rewrite map_app.
+    assert (Hn : map (tomb_state l c) news = news).
+    { rewrite <- (map_id news) at 2. apply map_ext_in. intros s Hs. unfold tomb_state.
+      rewrite (derive_all_news_epoch st upds _ _ E s Hs). destruct (N.leb_spec (d_epoch st + 1) c) as [Hx|Hx]; [exfalso; clear - Hx Hc; lia|]. rewrite andb_false_r. reflexivity. }
+    rewrite Hn. reflexivity.
+  Qed.
+
 End DirFacts.
+
+(* C11: value states stamped with a later epoch are invisible at or before E *)
+Lemma latest_state_future sts news u E :
+  (forall s, In s news -> E < vr_epoch s) -> latest_state (sts ++ news) u E = latest_state sts u E.
+Proof.
+  intros H. unfold latest_state. rewrite fold_left_app. generalize (fold_left (fun acc s => if bytes_eqb (vr_user s) u && (vr_epoch s <=? E) then
+      match acc with Some a => if vr_epoch a <=? vr_epoch s then Some s else acc | None => Some s end else acc) sts None) as acc.
+  induction news as [|x news IH]; intros acc; simpl; [reflexivity|].
+  destruct (N.leb_spec (vr_epoch x) E) as [Hle|Hgt]; [specialize (H x (or_introl eq_refl)); lia|].
+  rewrite andb_false_r. apply IH. intros s Hs. apply H. now right.
+Qed.
+
+
 
 Section AuditFacts.
   Variable cfg : config.
